@@ -344,8 +344,17 @@ def same_enumeration(ctx):
         if kind == "loop":
             head = g.of[node]
             bs = C.succ_by_label(head, "iter")[0]
+            def file_entry(a):
+                """the appended value is the file's own entry: a display without 'attr', or a local bound once to one"""
+                if isinstance(a, ast.Name):
+                    vals_ = [p_ for w_, p_ in ctx.res.bindings(fn).get(a.id, []) if w_ == "value"]
+                    a = vals_[0] if len(vals_) == 1 and len(ctx.res.bindings(fn).get(a.id, [])) == 1 else a
+                return isinstance(a, ast.Dict) and not any(const_str(k) == "attr" for k in a.keys)
             apps = {C.stmt_node(ctx, fn, x) for st in node.body for x in ast.walk(st) if isinstance(x, ast.Call) and isinstance(x.func, ast.Attribute) and x.func.attr == "append"
-                    and x.args and isinstance(x.args[0], ast.Dict) and not any(const_str(k) == "attr" for k in x.args[0].keys)}
+                    and x.args and file_entry(x.args[0])}
+            if not apps:
+                ctx.undecided("C01.1", fn, "info.files (loop): no statement that appends the file's own entry was recognised in the loop over %s" % norm(it), it)
+                continue
             # every iteration appends the file's entry (a `continue` after the append skips nothing of it)
             filt = not (apps and g.must_pass(bs, head, apps)) or any(isinstance(x, (ast.Break, ast.Return)) for st in node.body for x in ast.walk(st))
         ctx.decide("C01.1", fn, same and not filt, "info.files (%s) is built from the same list, every element, in order" % kind,
